@@ -48,7 +48,7 @@ type c07Observer struct {
 	reflectEvery int
 	count        int
 
-	phase                                                                     int
+	phase, stageDigestSkipped                                                 int
 	snapshots, ntSnapshots, shadowEvents, shadowsDone, maskedLate, maskedOld int
 	maxPeriodRouters, withEquiv, withPending, withActions           int
 }
@@ -302,6 +302,22 @@ func (o *c07Observer) transition(n *engaNode, e externalEvent, before player, ac
 	if !persistent(actions) && (o.count+o.phase)%5 != 0 {
 		return
 	}
+	if !persistent(actions) {
+		// The real Service only ever persists action lists that contain an attest (service.go:266-270). zeroAction
+		// (actions.go:503-523) has no case for stageDigest and decode would panic on it; no transition emits attest and
+		// stageDigest together (player.go:369-375 emits stageDigest only on a cert threshold without the block), so for
+		// these extra, non-persistent snapshots stageDigest actions are left out. A persistent list goes through as is.
+		var kept []action
+		for _, a := range actions {
+			if a.t() != stageDigest {
+				kept = append(kept, a)
+			}
+		}
+		if len(kept) != len(actions) {
+			o.stageDigestSkipped++
+			actions = kept
+		}
+	}
 	raw := encode(n.clock, n.router, n.player, actions, false)
 	clock2, rr2, p2, a2, err := decode(raw, n.clock, log, false)
 	if err != nil {
@@ -446,5 +462,6 @@ func TestVerif_C07_Restore(t *testing.T) {
 		vk.Add("forks_completed", int64(o.shadowsDone))
 		vk.Add("masked_late_credential", int64(o.maskedLate))
 		vk.Add("forks_ended_by_old_round_proposal_vote", int64(o.maskedOld))
+		vk.Add("snapshots_with_stageDigest_action_left_out", int64(o.stageDigestSkipped))
 	})
 }
